@@ -203,6 +203,41 @@ def check(spec, ctx):
 
 
 @st.composite
+def many_case(draw):
+    """Very many windows (a long recording cut into short frames): more than 2^16 and 2^17 lattice positions, dyadic values."""
+    n = draw(st.sampled_from([65535, 65536, 65537, 65600, 70001, 131073]))
+    hop = draw(st.sampled_from([0.125, 0.25, 1.0]))
+    dur = hop * draw(st.sampled_from([1.0, 2.0, 0.5]))
+    tail = draw(st.sampled_from([0.0, 0.5])) * hop
+    return {"start": draw(st.sampled_from([0.0, 16.0])), "length": n * hop + tail, "duration": dur, "hop": hop, "incomplete": draw(st.booleans()), "salt": draw(st.integers(1, 1000))}
+
+
+def check_many(spec, ctx):
+    from soundevent.operations import segment_clip
+
+    if spec["length"] / spec["hop"] > 140000 or spec["hop"] <= 0 or spec["duration"] <= 0:
+        raise ValueError("malformed spec")
+    clip, rec, end = _clip(spec)
+    s, d, h = spec["start"], spec["duration"], spec["hop"]
+    # closed form on the dyadic grid: window i starts at s + i*h; complete while s + i*h + d <= end
+    n_start = math.ceil((end - s) / h)
+    n_full = max(0, math.floor((end - s - d) / h) + 1) if end - s >= d else 0
+    want = n_start if spec["incomplete"] else n_full
+    ctx.case(spec, nontrivial=want > 65536, labels=[f"n>{2**16}" if want > 2**16 else "n<=65536", "incomplete" if spec["incomplete"] else "complete_only"], out={"n": want})
+    segs = ctx.call(spec, "segment_clip (many windows)", lambda: list(segment_clip(clip, duration=d, hop=h, include_incomplete=spec["incomplete"])))
+    if len(segs) != want:
+        ctx.fail(f"{len(segs)} segments, the hop lattice has {want} windows ({'starting inside' if spec['incomplete'] else 'fitting completely into'} the clip [{s}, {end}], duration {d}, hop {h})", spec, len(segs), want, kind="count")
+        return
+    for i in (0, 1, len(segs) // 2, 65535, 65536, len(segs) - 2, len(segs) - 1):
+        if 0 <= i < len(segs):
+            es, ee = s + i * h, min(s + i * h + d, end)
+            if segs[i].start_time != es or segs[i].end_time != ee:
+                ctx.fail(f"segment {i} is [{segs[i].start_time}, {segs[i].end_time}], the lattice window is [{es}, {ee}]", spec, [segs[i].start_time, segs[i].end_time], [es, ee], kind="bounds")
+    if len({x.uuid for x in segs}) != len(segs):
+        ctx.fail("segment identifiers are not distinct within one call", spec, None, None, kind="uuid")
+
+
+@st.composite
 def bad_case(draw):
     which = draw(st.sampled_from(["dur0", "dur_neg", "hop0", "hop_neg"]))
     v = {"dur0": draw(st.sampled_from([0.0, -0.0, 0])), "dur_neg": -draw(st.sampled_from([5e-324, 1.0, 1e-9])), "hop0": draw(st.sampled_from([0.0, -0.0, 0])), "hop_neg": -draw(st.sampled_from([5e-324, 1.0, 1e-9]))}[which]
@@ -232,5 +267,6 @@ def check_bad(spec, ctx):
 SUBS = [
     Sub("lattice_grid", check, strategy=grid_case, quick=12000, thorough=400000, min_nontrivial=0.3),
     Sub("lattice_free", check, strategy=free_case, quick=6000, thorough=200000, min_nontrivial=0.3),
+    Sub("many_segments", check_many, strategy=many_case, quick=24, thorough=200, min_nontrivial=0.2),
     Sub("rejects_nonpositive", check_bad, strategy=bad_case, quick=400, thorough=4000),
 ]
